@@ -635,10 +635,12 @@ def param_renames(btoks, ctoks, M):
 
 
 def apply_renames(text, mp):
-    for o, n in mp.items():
-        # not a `.field`, a `path::segment`, or a struct-literal field label `name: value`
-        text = re.sub(r'(?<![A-Za-z0-9_.])(?<!::)' + re.escape(o) + r'(?![A-Za-z0-9_])(?!\s*::)(?!\s*:(?!:))', n, text)
-    return text
+    """simultaneous whole-word renaming (a swap of two names stays a swap); not a `.field`, a `path::segment`, or a
+    struct-literal field label `name: value`"""
+    if not mp:
+        return text
+    alt = '|'.join(re.escape(o) for o in sorted(mp, key=len, reverse=True))
+    return re.sub(r'(?<![A-Za-z0-9_.])(?<!::)(' + alt + r')(?![A-Za-z0-9_])(?!\s*::)(?!\s*:(?!:))', lambda m: mp[m.group(1)], text)
 
 
 def lost_functions(b_text, btoks, lost):
@@ -895,6 +897,11 @@ def degrade_fn(g, name, ordinal, level=1):
     external_body, so that Verus neither type-checks nor verifies the body; its contract (signature insertions) stays and
     is ASSUMED for this run.  Used when the current body cannot be processed (ghost text naming a local that no longer
     exists, a std function without specification, ...).  -> new text, or None if the function is not found."""
+    if name.startswith('const:'):
+        cm = re.search(r'^(\s*)((?:pub(?:\([a-z]+\))? )?const\s+%s\s*:)' % re.escape(name[6:]), g, flags=re.M)
+        if not cm or '/*degraded*/' in g[max(0, cm.start() - 80):cm.start(2)]:
+            return None
+        return g[:cm.start(2)] + GOPEN + '#[verifier::external_body] /*degraded*/ ' + GCLOSE + g[cm.start(2):]
     occ = fn_occurrences(g, name)
     if ordinal >= len(occ):
         return None
